@@ -229,6 +229,30 @@ def df_column(ex, st, df, name, node):
     return V(SER, ser)
 
 
+proj_rows = z3.Function('proj_rows', sort_of(ROWS), sort_of(LV), sort_of(LV), sort_of(ROWS))   # rows, cols, names
+proj_dtypes = z3.Function('proj_dtypes', sort_of(LV), sort_of(LV), sort_of(LV), sort_of(LV))
+
+
+def projection_facts(rows_t, cols_t, dtypes_t, names_t):
+    """facts defining proj_rows(rows, cols, names): column c of the result is the (first) column of
+    the source named names[c]"""
+    k = L_len(LV, names_t)
+    n = L_len(ROWS, rows_t)
+    nrows = proj_rows(rows_t, cols_t, names_t)
+    ndt = proj_dtypes(dtypes_t, cols_t, names_t)
+    j, c = z3.Ints('j!proj c!proj')
+    pos = lambda q: L_index(LV, cols_t, L_get(LV, names_t, q))
+    return [z3.And(L_len(ROWS, nrows) == n, L_len(LV, ndt) == k),
+            z3.ForAll([j], z3.Implies(z3.And(j >= 0, j < n), L_len(LV, L_get(ROWS, nrows, j)) == k),
+                      patterns=[L_get(ROWS, nrows, j)]),
+            z3.ForAll([j, c], z3.Implies(z3.And(j >= 0, j < n, c >= 0, c < k),
+                                         L_get(LV, L_get(ROWS, nrows, j), c) ==
+                                         L_get(LV, L_get(ROWS, rows_t, j), pos(c))),
+                      patterns=[L_get(LV, L_get(ROWS, nrows, j), c)]),
+            z3.ForAll([c], z3.Implies(z3.And(c >= 0, c < k), L_get(LV, ndt, c) == L_get(LV, dtypes_t, pos(c))),
+                      patterns=[L_get(LV, ndt, c)])]
+
+
 def df_project(ex, st, df, names, node):
     cols, rows = rec_field(df, 'cols'), rec_field(df, 'rows')
     k = L_len(LV, names.t)
@@ -236,29 +260,12 @@ def df_project(ex, st, df, names, node):
     ex.oblige(st, 'safety', 'projected-columns-exist',
               z3.ForAll([j], z3.Implies(z3.And(j >= 0, j < k), L_has(LV, cols.t, L_get(LV, names.t, j))),
                         patterns=[L_get(LV, names.t, j)]), node)
-    pos = z3.Function(fresh_name('ppos'), I, I)
-    c = z3.Int('c!proj')
-    st.assume(z3.ForAll([c], z3.Implies(z3.And(c >= 0, c < k), z3.And(
-        pos(c) >= 0, pos(c) < L_len(LV, cols.t), L_get(LV, cols.t, pos(c)) == L_get(LV, names.t, c))),
-        patterns=[pos(c)]))
-    nrows = fresh(ROWS, 'proj_rows')
-    ndt = fresh(LV, 'proj_dtypes')
-    n = L_len(ROWS, rows.t)
-    st.assume(z3.And(L_len(ROWS, nrows.t) == n, L_len(LV, ndt.t) == k))
-    st.assume(z3.ForAll([j], z3.Implies(z3.And(j >= 0, j < n), L_len(LV, L_get(ROWS, nrows.t, j)) == k),
-                        patterns=[L_get(ROWS, nrows.t, j)]))
-    st.assume(z3.ForAll([j, c], z3.Implies(z3.And(j >= 0, j < n, c >= 0, c < k),
-                                           L_get(LV, L_get(ROWS, nrows.t, j), c) ==
-                                           L_get(LV, L_get(ROWS, rows.t, j), pos(c))),
-                        patterns=[L_get(LV, L_get(ROWS, nrows.t, j), c)]))
-    st.assume(z3.ForAll([c], z3.Implies(z3.And(c >= 0, c < k),
-                                        L_get(LV, ndt.t, c) == L_get(LV, R_get(DF, df.t, 'dtypes'), pos(c))),
-                        patterns=[L_get(LV, ndt.t, c)]))
+    dts = R_get(DF, df.t, 'dtypes')
+    for f in projection_facts(rows.t, cols.t, dts, names.t):
+        st.assume(f)
     note(ex, 'df[list] projects the named columns in the given order, all rows, same index')
-    out = V(DF, R_mk(DF, cols=names.t, rows=nrows.t, index=R_get(DF, df.t, 'index'), dtypes=ndt.t))
-    out_pos = pos
-    st.aux['last_projection_pos'] = pos
-    return out
+    return V(DF, R_mk(DF, cols=names.t, rows=proj_rows(rows.t, cols.t, names.t), index=R_get(DF, df.t, 'index'),
+                      dtypes=proj_dtypes(dts, cols.t, names.t)))
 
 
 def df_mask(ex, st, df, mask_t, node, what):
@@ -475,7 +482,13 @@ def q_concat(ex, st, args, kw, e):
             b = V(DF, L_get(lst.ty, lst.t, z3.IntVal(1)))
             for f in wf(a) + wf(b):
                 st.assume(f)
-            ex.oblige(st, 'safety', 'concat-same-columns', R_get(DF, a.t, 'cols') == R_get(DF, b.t, 'cols'), e)
+            ca, cb = rec_field(a, 'cols'), rec_field(b, 'cols')
+            jj = z3.Int('j!cc')
+            ex.oblige(st, 'safety', 'concat-same-columns', z3.Or(ca.t == cb.t, z3.And(
+                L_len(LV, ca.t) == L_len(LV, cb.t),
+                z3.ForAll([jj], z3.Implies(z3.And(jj >= 0, jj < L_len(LV, ca.t)),
+                                           L_get(LV, ca.t, jj) == L_get(LV, cb.t, jj)),
+                          patterns=[L_get(LV, ca.t, jj)]))), e)
             rows = N.NATIVES.list_concat(ex, st, rec_field(a, 'rows'), rec_field(b, 'rows'), e)
             idx = N.NATIVES.list_concat(ex, st, rec_field(a, 'index'), rec_field(b, 'index'), e)
             dts = fresh_assumed(ex, st, LV, 'dtypes')
@@ -549,3 +562,155 @@ def q_is_string_dtype(ex, st, args, kw, e):
 
 
 N.QUALIFIED['pandas.api.types.is_string_dtype'] = q_is_string_dtype
+
+
+# ---------------------------------------------------------------- DataFrame.insert(0, name, range)
+def m_df_insert(ex, st, lv, recv, args, e):
+    if not is_df(recv):
+        return None
+    pos = z3.simplify(args[0].t)
+    if not (z3.is_int_value(pos) and pos.as_long() == 0):
+        raise Undecided('DataFrame.insert at a position other than 0')
+    name = to_val(args[1])
+    rng = args[2]
+    if not isinstance(rng, Iter) or not hasattr(rng, 'lo'):
+        raise Undecided('DataFrame.insert with a value other than range(...)')
+    recv = ex.name_value(st, recv, 'frame')
+    cols, rows = rec_field(recv, 'cols'), rec_field(recv, 'rows')
+    cols, rows = ex.name_value(st, cols, 'frame_cols'), ex.name_value(st, rows, 'frame_rows')
+    n = L_len(ROWS, rows.t)
+    ex.oblige(st, 'safety', 'insert-length-matches', rng.length == n, e)
+    ex.oblige(st, 'safety', 'insert-column-is-new', z3.Not(L_has(LV, cols.t, name.t)), e)
+    j, c = z3.Ints('j!ins c!ins')
+    k = L_len(LV, cols.t)
+    ocols = L_mk(LV, k + 1, z3.Lambda([c], z3.If(c == 0, name.t, L_get(LV, cols.t, c - 1))))
+    orows = L_mk(ROWS, n, z3.Lambda([j], L_mk(LV, k + 1, z3.Lambda([c], z3.If(
+        c == 0, val_of_int(rng.lo + j), L_get(LV, L_get(ROWS, rows.t, j), c - 1))))))
+    odt = fresh_assumed(ex, st, LV, 'dtypes')
+    st.assume(L_len(LV, odt.t) == k + 1)
+    out = V(DF, R_mk(DF, cols=ocols, rows=orows, index=R_get(DF, recv.t, 'index'), dtypes=odt.t))
+    note(ex, 'df.insert(0, name, range(n)) prepends the column name with values 0..n-1; other columns, rows and index unchanged')
+    ex.lv_write(st, lv, out)
+    return vnone()
+
+
+_prev_insert = N.METHODS_MUT['insert']
+
+
+def _insert(ex, st, lv, recv, args, e):
+    if isinstance(recv.ty, RecT):
+        return m_df_insert(ex, st, lv, recv, args, e)
+    return _prev_insert(ex, st, lv, recv, args, e)
+
+
+N.METHODS_MUT['insert'] = _insert
+
+
+# ------------------------------------------------- joblib: Parallel(n_jobs=k)(delayed(F)(args) for j in range(k))
+def _consts_of(fs):
+    out = {}
+    seen = set()
+    stack = list(fs)
+    while stack:
+        t = stack.pop()
+        if t.get_id() in seen:
+            continue
+        seen.add(t.get_id())
+        if z3.is_app(t):
+            if t.num_args() == 0 and t.decl().kind() == z3.Z3_OP_UNINTERPRETED:
+                out[t.decl().name()] = t
+            stack.extend(t.children())
+        elif z3.is_quantifier(t):
+            stack.append(t.body())
+    return out
+
+
+def sp_parallel(ex, st, e):
+    """results = [F(args_j) for j in range(k)], F run on copies of its arguments (ASSUMED joblib
+    contract: each call behaves as the function's contract says, in order, no effect on the
+    caller's state).  The callee's precondition is an obligation for an arbitrary j; its
+    postcondition is assumed for every j."""
+    gen = e.args[0]
+    if not isinstance(gen, ast.GeneratorExp) or len(gen.generators) != 1 or gen.generators[0].ifs:
+        raise Undecided('Parallel(...) applied to something other than a simple generator')
+    comp = gen.generators[0]
+    call = gen.elt
+    if not (isinstance(call, ast.Call) and isinstance(call.func, ast.Call) and isinstance(call.func.func, ast.Name)
+            and call.func.func.id == 'delayed' and len(call.func.args) == 1 and isinstance(comp.target, ast.Name)):
+        raise Undecided('Parallel generator is not delayed(F)(args) for name in iterable')
+    it = ex.as_iter(st, ex.eval(st, comp.iter), comp.iter)
+    n = it.length
+    j = z3.Int(fresh_name('job'))
+    sub = st.fork()
+    sub.pc += [j >= 0, j < n]
+    sub.env[comp.target.id] = it.elem(j)
+    before = set(a.get_id() for a in sub.pc)
+    mark = fresh_counter()
+    synthetic = ast.Call(func=call.func.args[0], args=call.args, keywords=call.keywords)
+    ast.copy_location(synthetic, call)
+    ast.fix_missing_locations(synthetic)
+    res_j = ex.eval(sub, synthetic)
+    if not is_ground(res_j.ty):
+        raise Undecided('Parallel over a function returning %r' % (res_j.ty,))
+    new = [a for a in sub.pc if a.get_id() not in before]
+    lt = ListT(res_j.ty)
+    results = fresh(lt, 'parallel_results')
+    st.assume(L_len(lt, results.t) == n)
+    # generalise over j: fresh constants created by the call become functions of j
+    subst = []
+    res_named = res_j.t
+    for nm, cst in _consts_of(new + [res_named]).items():
+        fi = fresh_index(nm)
+        if fi is None or fi <= mark or cst.eq(j):
+            continue              # only symbols created by this call depend on j
+        if cst.eq(res_named):
+            subst.append((cst, L_get(lt, results.t, j)))
+        else:
+            arr = z3.Const(fresh_name('par_' + nm.split('!')[0]), z3.ArraySort(I, cst.sort()))
+            subst.append((cst, z3.Select(arr, j)))
+    body = z3.And(*new) if new else z3.BoolVal(True)
+    body = z3.substitute(body, *subst) if subst else body
+    jq = z3.Int('j!par')
+    body = z3.substitute(body, (j, jq))
+    st.assume(z3.ForAll([jq], z3.Implies(z3.And(jq >= 0, jq < n), body), patterns=[L_get(lt, results.t, jq)]))
+    note(ex, 'joblib.Parallel(n)(delayed(F)(a_j) ...) returns [F(a_j)] in order; F runs on copies, no effect on the caller')
+    ex.assumed_log.append('joblib.Parallel / delayed [assumed: results in order, pure function of pickled arguments; real process scheduling not modelled]')
+    return results
+
+
+N.SPECIAL['joblib.Parallel'] = sp_parallel
+
+
+def concat_many(ex, st, lst, e):
+    """pd.concat(list_of_frames), all frames with the same columns"""
+    lt = lst.ty
+    n = L_len(lt, lst.t)
+    frame = lambda q: V(DF, L_get(lt, lst.t, q))
+    ex.oblige(st, 'safety', 'concat-non-empty-list', n >= 1, e)
+    j, p, c = z3.Ints('j!cm p!cm c!cm')
+    c0 = rec_field(frame(z3.IntVal(0)), 'cols')
+    same_term = z3.ForAll([j], z3.Implies(z3.And(j >= 0, j < n), R_get(DF, frame(j).t, 'cols') == c0.t),
+                          patterns=[L_get(lt, lst.t, j)])
+    ex.oblige(st, 'safety', 'concat-same-columns', z3.Or(same_term, z3.ForAll([j, c], z3.Implies(
+        z3.And(j >= 0, j < n), z3.And(
+            L_len(LV, R_get(DF, frame(j).t, 'cols')) == L_len(LV, c0.t),
+            z3.Implies(z3.And(c >= 0, c < L_len(LV, c0.t)),
+                       L_get(LV, R_get(DF, frame(j).t, 'cols'), c) == L_get(LV, c0.t, c)))),
+        patterns=[L_get(LV, R_get(DF, frame(j).t, 'cols'), c)])), e)
+    out = fresh_assumed(ex, st, DF, 'concat')
+    off = z3.Function(fresh_name('off'), I, I)
+    orows, oidx = rec_field(out, 'rows'), rec_field(out, 'index')
+    rows_of = lambda q: R_get(DF, frame(q).t, 'rows')
+    st.assume(z3.And(off(0) == 0, L_len(ROWS, orows.t) == off(n), R_get(DF, out.t, 'cols') == c0.t))
+    st.assume(z3.ForAll([j], z3.Implies(z3.And(j >= 0, j < n), z3.And(
+        off(j + 1) == off(j) + L_len(ROWS, rows_of(j)), off(j) >= 0)), patterns=[off(j)]))
+    st.assume(z3.ForAll([j, p], z3.Implies(z3.And(j >= 0, j < n, p >= 0, p < L_len(ROWS, rows_of(j))), z3.And(
+        L_get(ROWS, orows.t, off(j) + p) == L_get(ROWS, rows_of(j), p),
+        L_get(LV, oidx.t, off(j) + p) == L_get(LV, R_get(DF, frame(j).t, 'index'), p))),
+        patterns=[L_get(ROWS, rows_of(j), p)]))
+    note(ex, 'pd.concat(frames): rows of the frames in order, same columns, index labels kept')
+    st.aux['concat_off'] = off
+    return out
+
+
+N.SPECIAL['concat-many'] = concat_many
